@@ -975,6 +975,7 @@ func rulesC20(w *World, r *Report) {
 	r.Rule("C20.R5", "sum of finer (decision diagrams): randomValWithHighSum adds exactly the finer values whose truncated time is t, stops only past t and adds no random remainder for a fully covered slot; randomPoints takes the start of the covered slots from the finer points iff they exist and start before this archive's until", 2)
 	ruleGenerateSumOfFiner(w, r, "C20.R5")
 	ruleGenerateChain(w, r, "C20.R5")
+	ruleWriteOrderFinestFirst(w, r, "C20.R5")
 	r.Rule("C20.R6", "the requested layout reaches the command: each flag.Value (aggregation method, xFilesFactor, retention list, file mode, timestamps) stores what it parsed into the option it was registered for before reporting success", 5)
 	ruleFlagSetStores(w, r, "C20.R6")
 	ruleC05R7(w, r, "C05.R7", 2, cmdReachableFrom(w, "GenerateCommand"))
